@@ -38,13 +38,25 @@ class TLCResult:
 
     def tagged(self, tag):
         """JSON payloads printed as PrintT(<<tag, ToJson(v)>>)."""
-        out = []
+        return list(self.iter_tagged(tag))
+
+    def iter_tagged(self, tag, consume=False):
+        """generator version of `tagged`; consume=True releases the raw
+        lines while iterating (very large enumerations)"""
         pre = '<<"%s", ' % tag
-        for line in self.printed:
+        lines = self.printed
+        if consume:
+            self.printed = []
+            self.stdout = ""
+            lines.reverse()
+            while lines:
+                line = lines.pop()
+                if line.startswith(pre) and line.endswith(">>"):
+                    yield json.loads(json.loads(line[len(pre):-2]))
+            return
+        for line in lines:
             if line.startswith(pre) and line.endswith(">>"):
-                body = line[len(pre):-2]
-                out.append(json.loads(json.loads(body)))
-        return out
+                yield json.loads(json.loads(line[len(pre):-2]))
 
 
 def scratch_dir(prefix="vp_"):
